@@ -1,5 +1,6 @@
 import PortusModel.Driver.Wire
 import PortusModel.Driver.Orc
+import PortusModel.Driver.Bkd
 /-! `pmodel`: the line-protocol driver around the model's executable definitions. -/
 open Portus.Driver
 
@@ -9,9 +10,11 @@ def dispatch (cmd : String) (args : List String) : String :=
   | "DECS" => decs args
   | "ENC" => (encDp args).getD "BADARG"
   | "RT" => rt args
+  | "BKD" => bkd args
   | "ORC" => (match args with
     | "C04" :: rest => orcC04 rest
     | "C07" :: rest => orcC07 rest
+    | "C08" :: rest => orcC08 rest
     | _ => "BADORC")
   | _ => "BADCMD"
 
